@@ -340,6 +340,7 @@ struct RunOut {
     panic: Option<String>,
     hooks: Vec<String>,
     unresolved: Option<Mark>,
+    unprintable: bool,
 }
 
 /// One complete plugin invocation on `src`, the way @swc/core would host it: parse → resolver →
@@ -359,6 +360,7 @@ fn run_once(src: &str, lang: &str, opts: &Options, with_visitor: bool, trace: bo
         panic: None,
         hooks: vec![],
         unresolved: None,
+        unprintable: false,
     };
     if trace {
         phase("parse");
@@ -427,7 +429,8 @@ fn run_once(src: &str, lang: &str, opts: &Options, with_visitor: bool, trace: bo
     }));
     match res {
         Ok(t) => out.text = Some(t),
-        Err(_) => out.panic = Some("print-phase panic (not attributed to the transform)".into()),
+        // the printer / fixer gave up on the AST it was handed: the transform returned, its output is not a program
+        Err(_) => out.unprintable = true,
     }
     out
 }
@@ -495,6 +498,28 @@ fn observe(c: &Case) -> Value {
                 json!({"jsx": total, "kinds": cs.kinds.keys().collect::<Vec<_>>()}),
             );
             extra.insert("jsx_in".into(), json!(jsx_count(input)));
+            extra.insert(
+                "uses_define_component".into(),
+                json!(opts.resolve_type && permeable(input, true) && jsx_count(input) == 0 || {
+                    let mut h = HasJsx { found: false, define_component: true };
+                    // a defineComponent call anywhere (with or without JSX) may be augmented under resolveType
+                    struct OnlyDc<'a>(&'a mut HasJsx);
+                    impl Visit for OnlyDc<'_> {
+                        fn visit_call_expr(&mut self, n: &CallExpr) {
+                            if let Callee::Expr(e) = &n.callee {
+                                if let Expr::Ident(i) = &**e {
+                                    if &*i.sym == "defineComponent" {
+                                        self.0.found = true;
+                                    }
+                                }
+                            }
+                            n.visit_children_with(self);
+                        }
+                    }
+                    input.visit_with(&mut OnlyDc(&mut h));
+                    opts.resolve_type && h.found
+                }),
+            );
             if want("scope") {
                 let free_in = free_idents(input, unresolved, true);
                 extra.insert("free_in".into(), json!(free_in));
@@ -573,6 +598,15 @@ fn observe(c: &Case) -> Value {
     rec.insert("term".into(), json!({"k": "return"}));
     for (k, v) in extra {
         rec.insert(k, v);
+    }
+    if r.unprintable {
+        rec.insert("out".into(), json!(""));
+        rec.insert("reparse".into(), json!({"t": "error", "msg": "the printer panicked on the transform's output"}));
+        rec.insert("run2_same".into(), json!(true));
+        rec.insert("out_hash".into(), json!("unprintable"));
+        rec.insert("pass2".into(), json!("unparseable"));
+        rec.insert("same_as_novisitor".into(), json!(false));
+        return Value::Object(rec);
     }
     let text = r.text.clone().unwrap();
     rec.insert("out".into(), json!(text));
